@@ -2099,6 +2099,24 @@ def generator_sources(te: "TermEval", summ: Summary, t, depth: int = 2) -> list:
     return out
 
 
+def unconditionally_calls(te: "TermEval", f, target, depth: int = 3) -> bool:
+    """Does every refusal-free run of f call `target` - directly or through helpers of f's own class (or module), outside
+    any loop and under no condition other than earlier refusals having passed?"""
+    def stop(g):
+        if g is target or g.name == "__init__":
+            return True
+        return not ((f.cls is not None and g.cls is not None and (g.cls is f.cls or g.cls in f.cls.mro() or
+                                                                   f.cls in g.cls.mro()))
+                    or (f.cls is None and g.cls is None and g.module is f.module))
+    su = te.inline(f, depth, stop=stop)
+    refusal = refusal_literals(su)
+    for e in su.effects:
+        if e.kind == "call" and e.value in su.precise and target in su.calls.get(e.value, ()) and not e.loops() and \
+                all(passed_refusal(l, refusal) for l in e.pc):
+            return True
+    return False
+
+
 def is_fresh_empty_list(te: "TermEval", func, t) -> bool:
     """Is `t` a list that is new and empty when the function creates it: `[]`, `list()`, or the list-valued field (declared
     with an empty-list default / default_factory=list) of a dataclass object constructed in this very function?"""
